@@ -173,3 +173,32 @@ def read_records(path: str):
         return None
     text = decompress_file(path).decode("ascii", "replace")
     return parse_any(text)
+
+
+def format_ubam(recs) -> bytes:
+    """Unaligned BAM (SAM specification, section 4) holding the records (name, sequence, qualities as Phred+33 text),
+    written as BGZF blocks of at most 60000 bytes followed by the empty end-of-file block."""
+    import struct
+    import zlib
+
+    def block(data: bytes) -> bytes:
+        c = zlib.compressobj(6, zlib.DEFLATED, -15)
+        comp = c.compress(data) + c.flush()
+        head = struct.pack("<BBBBIBBHBBHH", 31, 139, 8, 4, 0, 0, 255, 6, 66, 67, 2, len(comp) + 25)
+        return head + comp + struct.pack("<II", zlib.crc32(data), len(data))
+
+    text = b"@HD\tVN:1.6\tSO:unsorted\n"
+    payload = b"BAM\x01" + struct.pack("<i", len(text)) + text + struct.pack("<i", 0)
+    codes = "=ACMGRSVTWYHKDBN"
+    for name, seq, qual in recs:
+        rn = name.split()[0].encode() + b"\0"
+        nib = [codes.index(ch) for ch in seq.upper()]
+        if len(nib) % 2:
+            nib.append(0)
+        packed = bytes((nib[i] << 4) | nib[i + 1] for i in range(0, len(nib), 2))
+        rec = struct.pack("<iiBBHHHiiii", -1, -1, len(rn), 0, 4680, 0, 4, len(seq), -1, -1, 0) + rn + packed + bytes(ord(ch) - 33 for ch in qual)
+        payload += struct.pack("<i", len(rec)) + rec
+    out = b""
+    for i in range(0, len(payload), 60000):
+        out += block(payload[i:i + 60000])
+    return out + block(b"")
